@@ -247,3 +247,12 @@ package cl
 //@ func cl.(*Read).wrapRead
 //@   property C02
 //@   on-call Seek#2 position: (0 <= start && start < 4611686018427387904 && 0 <= pos && pos < 4611686018427387904) ==> ($arg0 == start + pos && $arg1 == 0)
+
+// C01 / C04: apply calls the function with the leading arguments in order
+// followed by the elements of the final list, in the caller's scope.
+//@ func cl.(*Apply).Call
+//@   property C01 C04
+//@   on-call Call#1 spread-length: len($arg1) == len(args) - 2 + len(larg)
+//@   on-call Call#1 leading-args: forall j :: (0 <= j && j < len(args) - 2) ==> $arg1[j] == args[j + 1]
+//@   on-call Call#1 list-elements: forall j :: (0 <= j && j < len(larg)) ==> $arg1[len(args) - 2 + j] == larg[j]
+//@   on-call Call#1 scope: $arg0 == s
